@@ -228,7 +228,7 @@ Section Inv.
   Qed.
 
   (** every readable image file lies in exactly one group; nothing else lies in a group *)
-  Lemma partition warn l gs w :
+  Lemma partition warn (l : list (rd F)) gs w :
     parse_and_group warn l = Ok (gs, w) ->
     Permutation (concat (map snd gs)) (map fst (imgs l)).
   Proof.
@@ -237,22 +237,23 @@ Section Inv.
     rewrite flat_members. exact Hp.
   Qed.
 
-  Lemma warnings_count warn l gs w : parse_and_group warn l = Ok (gs, w) -> w = n_skipped l.
+  Lemma warnings_count warn (l : list (rd F)) gs w : parse_and_group warn l = Ok (gs, w) -> w = n_skipped l.
   Proof. intros H. destruct (parse_and_group_inv _ _ _ _ H) as [rs [_ [Hw _]]]. exact Hw. Qed.
 
   (** group -> the sub result it came from *)
-  Lemma group_origin warn l gs w g :
+  Lemma group_origin warn (l : list (rd F)) gs w g :
     parse_and_group warn l = Ok (gs, w) -> In g gs ->
     exists rs e s, inv (imgs l) rs /\ Permutation gs (flat group_by close_tests rs) /\
                    In e rs /\ In s (snd e) /\ g = (merge_key group_by close_tests (fst e) (fst s), snd s).
   Proof.
     intros H Hg. destruct (parse_and_group_inv _ _ _ _ H) as [rs [Hi [_ [Hperm _]]]].
     pose proof (Permutation_in _ Hperm Hg) as Hg'. apply in_flat in Hg'.
-    destruct Hg' as [e [s [He [Hs ->]]]]. exists rs, e, s. repeat split; assumption.
+    destruct Hg' as [e [s [He [Hs ->]]]]. exists rs, e, s.
+    split; [exact Hi|]. split; [exact Hperm|]. split; [exact He|]. split; [exact Hs | reflexivity].
   Qed.
 
   (** the key of a group is (==) the tuple of group-by values of one of its members *)
-  Lemma key_is_member_value warn l gs w g :
+  Lemma key_is_member_value warn (l : list (rd F)) gs w g :
     parse_and_group warn l = Ok (gs, w) -> In g gs ->
     exists f0 m0, In (f0, m0) (imgs l) /\ In f0 (snd g) /\ key_eqb (fst g) (map m0 group_by) = true.
   Proof.
@@ -264,7 +265,7 @@ Section Inv.
     apply merge_eqb_intro; [|apply key_eqb_refl]. rewrite <- Hme. apply key_eqb_sym. exact H4.
   Qed.
 
-  Lemma groups_nonempty warn l gs w g :
+  Lemma groups_nonempty warn (l : list (rd F)) gs w g :
     parse_and_group warn l = Ok (gs, w) -> In g gs -> snd g <> [].
   Proof.
     intros H Hg. destruct (key_is_member_value _ _ _ _ _ H Hg) as [f0 [_ [_ [Hin _]]]].
@@ -272,7 +273,7 @@ Section Inv.
   Qed.
 
   (** the keys of the result are pairwise different (Python ==) *)
-  Lemma keys_distinct warn l gs w :
+  Lemma keys_distinct warn (l : list (rd F)) gs w :
     parse_and_group warn l = Ok (gs, w) ->
     forall g1 g2, In g1 gs -> In g2 gs -> key_eqb (fst g1) (fst g2) = true -> g1 = g2.
   Proof.
